@@ -32,10 +32,13 @@ CLAIMED = {
     'C06': ('Lean 4 proof: history memory written by exits only, restore step = recorded memory sorted parents-first, via the refinement theorem + correspondence',
             'restore_step, restored_exactly_parents_first, exit_records_shallow/deep, record_kept(_steps), run_applies_the_steps, idle_keeps_memory: '
             'for every chart, configuration, memory and micro-step sequence. ' + TIE, '§6 C06'),
-    'C07': ('Lean 4 proof: every order of execution is a sort by a key injective on the elements present (canonical-sort lemma), selection invariant under permutation — partial; permutation/hash-seed correspondence',
-            'selection_order_free (fired set independent of declaration order), processing_order_free, depth_name/revdepth_name/name_order_free, '
-            'exit_list_order_free. PARTIAL: full equivariance of execute_once under chart permutation is not a theorem; the tie runs permuted '
-            'declaration orders and several PYTHONHASHSEEDs against the same model run. ' + TIE, '§6 C07'),
+    'C07': ('Lean 4 proof: two-run theorem — interpreters on statecharts that differ in declaration order only run in lock-step (relational Hoare logic over execute_once on top of the invariance of every tree query, selection and sorting) + permutation/hash-seed correspondence',
+            'declaration_order_free(_run): for every WFChart, every permutation of its sibling-state and transition declaration order (ChartPerm), every evaluator that '
+            'does not read the history memory (MemBlind; proved for the modelled PythonEvaluator), every listener and every history, the two interpreters return the '
+            'same macro steps (consumed events, transitions, exit/entry order, sent events) and reach states with equal configuration, queues, times, contexts, '
+            'outside world and history memories equal as maps, or fail with the same exception at the same step; selection_order_free, processing_order_free, '
+            '*_order_free. Not compared: the order of guard evaluations inside one priority class. Hash-seed independence (set iteration) cannot be stated in the '
+            'model, where sets are lists ordered as the code orders them: the tie runs permuted twins and several PYTHONHASHSEEDs. ' + TIE, '§6 C07'),
     'C08': ('Lean 4 proof: contract evaluation points from the exact effect log; failure is the last effect (error-origin theorem) + correspondence',
             'evaluated_at_documented_points (the cond entries of the log are exactly the documented points interleaved with the code), '
             'invariants_even_without_step, pre/post/invariant_failure_is_immediate. ' + TIE, '§6 C08'),
